@@ -25,6 +25,12 @@ program `Sys.loadFile` accepts, under name hypotheses on the sources only, the `
 *source* denotes (`Denote.denoteFile`) have the same solutions on the program's own domains.  Both missing links
 of the earlier `_partial` statements are discharged by theorem (the driver still evaluates them per run as a
 redundant cross-check):
+* **Repair F17** (`System.output_nupack` keeps a `done` set; model `Sys.dedupEntries`): of the entries of one signal
+  with equal connector name and orientation only the first is written (`connectors_written_once_keys`,
+  `connectors_written_once`).  The design still lists every entry, so `BlocksOk` carries one more clause for signal
+  blocks (`BlockOk`): such entries are the same entry.  It is what `Sys.loadFile` produces (proved in
+  `blocksOk_of_load`), it is evaluated per run with the rest of `BlocksOk` (`tables_ok`), and without it
+  `des_no_fewer` is false (`exClash` below).
 * **M1, `BlocksOk (blocksInst inst)` — discharged** (`blocksOk_of_load`, from `PepperProofs/LoadInvDes.lean`): it
   holds for whatever `Sys.loadFile` returns, for bundles satisfying `DesNamesOk`: component sources with user
   names in their statements (`StmtNamesOk`, the statement part of C01's `UserNamesOk`) and pairwise distinct
@@ -142,6 +148,35 @@ theorem connector_is_gadget (inst : Inst) (ok : BlocksOk (blocksInst inst)) (pfx
       (es.map (fun e => (portNucs pfx len e, e.wc))) :=
   gadget_of_block ok hb a
 
+/-- **A connector is written once (repair F17).**  `System.output_nupack` keeps a `done` set: of the entries of one
+    signal that share connector name (`<instance>-<port>`) and orientation (`wc`) only the first is written.  For every
+    signal block, unconditionally: the connector lines of `signalDoc pfx sg len es` are those of a sub-list `kept` of
+    the entry table (same order) whose (connector name, orientation) pairs are pairwise distinct and which
+    represents every entry. -/
+theorem connectors_written_once_keys (pfx sg : String) (len : Nat) (es : List SigEntry) :
+    ∃ kept : List SigEntry, kept.Sublist es ∧
+      (kept.map (fun e => (e.connName, e.wc))).Nodup ∧
+      (∀ e ∈ es, ∃ e' ∈ kept, e'.connName = e.connName ∧ e'.wc = e.wc) ∧
+      structLines (signalDoc pfx sg len es) =
+        (pfx ++ sg ++ "-_Self", duplex len) :: kept.map (fun e => (pfx ++ sg ++ "-" ++ e.connName, duplex len)) ∧
+      assignLines (signalDoc pfx sg len es) =
+        (pfx ++ sg ++ "-_Self", [⟨wcName pfx sg, false⟩, ⟨pfx ++ sg, false⟩]) ::
+        kept.map (fun e => (pfx ++ sg ++ "-" ++ e.connName,
+          (⟨if e.wc then pfx ++ sg else wcName pfx sg, false⟩ : Item) :: (portItems pfx e).2)) :=
+  ⟨dedupEntries es, dedupEntries_sublist es, dedupEntries_keys_nodup es, fun _ he => dedupEntries_cover he,
+    by simp only [structLines_signalDoc, portItems_fst_connName],
+    by simp only [assignLines_signalDoc, portItems_fst_connName]⟩
+
+/-- For every signal block, the structure names of `signalDoc pfx sg len es` (`S-_Self` and the connectors
+    `S-<instance>-<port>`) are pairwise distinct **iff** no two entries of the signal share a connector name with
+    different orientation.  The side condition is exact: one port bound to one signal both plainly and starred gives two
+    connectors of one name (and is excluded for loaded trees by `PortsDistinct` / `SysNamesOk`); a port bound twice in
+    the same orientation (an input that is also an output, `examples/David_CRN/Oscillator.sys`) no longer does. -/
+theorem connectors_written_once (pfx sg : String) (len : Nat) (es : List SigEntry) :
+    ((structLines (signalDoc pfx sg len es)).map (·.1)).Nodup ↔
+      ∀ e ∈ es, ∀ e' ∈ es, e.connName = e'.connName → e.wc = e'.wc :=
+  LoadInv.signal_structNames_nodup_iff pfx sg len es
+
 /-! ### 4. the equivalence -/
 
 /-- every solution of the document is, unchanged, a solution of the design (the document forces no fewer
@@ -162,7 +197,8 @@ theorem des_no_more (inst : Inst) (ok : BlocksOk (blocksInst inst)) (tbl : CodeT
 /-- **`des_equiv`, relative to the object tables (PARTIAL).**  For every instance tree — any nesting depth,
     any number of signals — that satisfies the decidable consistency condition `BlocksOk` (sequence,
     structure and strand names distinct across the tree; every structure made of its component's strands
-    and emitted sequences; every bound port of the signal's length and made of program domains), every
+    and emitted sequences; every bound port of the signal's length and made of program domains; entries of one
+    signal with equal connector name and orientation are the same entry), every
     code table in which `N` allows every base, and every assignment `a` of the program's own domain
     variables: `a` extends to the signal and auxiliary sequences so as to satisfy the document  **iff**
     `a` extends to the signal sequences so as to satisfy the design of the tables.
@@ -418,6 +454,58 @@ example : desLinks (desDoc exSys) = [
 
 /-- the source's `equals` entry for `q`: `[q, a-x, rc b-x]` -/
 example : (designOf exSys).equals = [[fwd "q" 2, fwd "a-x" 2, rc (fwd "b-x" 2)]] := by decide
+
+/-! ### non-vacuity of the `done` set (repair F17): one port bound to a signal as an input and as an output -/
+
+/-- `exSys` with `a = T(q) -> q`: port `x` of instance `a` is bound to `q` twice, in the same orientation (the
+    situation of `examples/David_CRN/Oscillator.sys`) -/
+def exDup : Inst :=
+  .sys (.mk "." "top" "" [("T", "T")]
+    [("q", [⟨.seq ⟨"x", false, 2, false⟩ [⟨"x", false, 2⟩], "a", false⟩,
+            ⟨.seq ⟨"x", false, 2, false⟩ [⟨"x", false, 2⟩], "b", true⟩,
+            ⟨.seq ⟨"x", false, 2, false⟩ [⟨"x", false, 2⟩], "a", false⟩])]
+    [("q", 2)]
+    [("a", .comp (exComp "a-" ⟨['1'], []⟩)), ("b", .comp (exComp "b-" ⟨['0'], []⟩))] [] [⟨"q", false⟩])
+
+/-- the connector `q-a-x` is listed once -/
+example : signalDoc "" "q" 2
+    [⟨.seq ⟨"x", false, 2, false⟩ [⟨"x", false, 2⟩], "a", false⟩,
+     ⟨.seq ⟨"x", false, 2, false⟩ [⟨"x", false, 2⟩], "b", true⟩,
+     ⟨.seq ⟨"x", false, 2, false⟩ [⟨"x", false, 2⟩], "a", false⟩] = [
+    .seq "q" "NN".toList, .seq "q-_WC" "NN".toList,
+    .struct "q-_Self" "((+))".toList, .assign "q-_Self" [⟨"q-_WC", false⟩, ⟨"q", false⟩],
+    .struct "q-a-x" "((+))".toList, .assign "q-a-x" [⟨"q-_WC", false⟩, ⟨"a-x", false⟩],
+    .struct "q-b-x" "((+))".toList, .assign "q-b-x" [⟨"q", false⟩, ⟨"b-x", false⟩]] := by decide
+/-- the document of `exDup` is that of `exSys`, the lines `Sys.emitDesInst` prints; the design keeps all three
+    regions -/
+example : desDoc exDup = desDoc exSys := by decide
+example : (desDoc exDup).map Line.render = Sys.emitDesInst exDup := by decide
+example : (designOf exDup).equals = [[fwd "q" 2, fwd "a-x" 2, rc (fwd "b-x" 2), fwd "a-x" 2]] := by decide
+/-- the hypotheses of the theorems hold for it (the repeated entries are the same entry), the document is well
+    formed, and the side condition of `connectors_written_once` holds -/
+example : BlocksOk (blocksInst exDup) := by decide
+example : wellFormed (desDoc exDup) = true := by decide
+example : ((structLines (desDoc exDup)).map (·.1)).Nodup := by decide
+/-- the second clause of `BlockOk` for signals is needed: two different ports under one connector name (a
+    super-sequence `x = y` and a sequence `x` of instance `a`) satisfy every other clause of `BlocksOk`, but the
+    document mentions only the first (`q-a-x : q-_WC a-y`) while the design equates `q` with both -/
+def exClash : List Block :=
+  [Block.comp { (exComp "a-" ⟨['1'], []⟩) with structs := [], strands := [] },
+   Block.signal "" "q" 2 [⟨.seq ⟨"x", false, 2, true⟩ [⟨"y", false, 2⟩], "a", false⟩,
+                          ⟨.seq ⟨"x", false, 2, false⟩ [⟨"x", false, 2⟩], "a", false⟩]]
+example : ¬ BlocksOk exClash := by decide
+example : ((seqLines (docOf exClash)).map (·.1)).Nodup ∧ ((assignLines (docOf exClash)).map (·.1)).Nodup ∧
+    ((designOfBlocks exClash).strands.map (·.1)).Nodup ∧
+    ∀ e ∈ [(⟨.seq ⟨"x", false, 2, true⟩ [⟨"y", false, 2⟩], "a", false⟩ : SigEntry),
+           ⟨.seq ⟨"x", false, 2, false⟩ [⟨"x", false, 2⟩], "a", false⟩],
+      EntryOk (designOfBlocks exClash).domains "" 2 e := by decide
+example : assignLines (docOf exClash) =
+    [("q-_Self", [⟨"q-_WC", false⟩, ⟨"q", false⟩]), ("q-a-x", [⟨"q-_WC", false⟩, ⟨"a-y", false⟩])] ∧
+    (designOfBlocks exClash).equals = [[fwd "q" 2, fwd "a-y" 2, fwd "a-x" 2]] := by decide
+/-- one port bound plainly and starred: both connectors are written, under one name -/
+example : ¬ ((structLines (signalDoc "" "q" 2
+    [⟨.seq ⟨"x", false, 2, false⟩ [⟨"x", false, 2⟩], "a", false⟩,
+     ⟨.seq ⟨"x", false, 2, false⟩ [⟨"x", false, 2⟩], "a", true⟩])).map (·.1)).Nodup := by decide
 
 /-- the equivalence applies to it, with the generated table -/
 example (a : Var → Base) :
